@@ -126,3 +126,20 @@ def _kf02(case, impl_res, bad):
         if g not in groups_hit and gg not in groups_hit:
             return False
     return True
+
+
+@pred("KF03-numba-anyall-float-fill")
+def _kf03(case, impl_res, bad):
+    return (case.get("engine") == "numba" and case.get("func") in ("any", "all") and not impl_res.get("ok")
+            and "TypingError" in impl_res.get("exc", "") and case.get("fill_value") is not None)
+
+
+@pred("KF04-bool-minmax-fill-cast")
+def _kf04(case, impl_res, bad):
+    if case.get("dtype") != "bool" or case.get("fill_value") in (None, True, False):
+        return False
+    if case.get("func") not in ("min", "max", "nanmin", "nanmax", "first", "last", "nanfirst", "nanlast"):
+        return False
+    absent = set(_absent_labels(case))
+    mc = case.get("min_count") or 0
+    return all((g in absent or mc > 1) and got is True for g, got, _ in bad)
